@@ -60,6 +60,7 @@ class Gen:
         self.pending = []	# names whose ill-typed definition was rejected: define them properly later
         self.pending_dom = []
         self.newtypes = ["Float", "DoubleFloat"] if dialect != "libaldor" else []	# types nothing has mentioned yet
+        self.files = {}		# auxiliary files of the sandbox (included by some forms)
         self.forms = []
 
     def fresh(self, p):
@@ -245,6 +246,36 @@ class Gen:
         self.funs[fn] = (1, lambda a, k=k: a + k)
         return self.add(Form("fun", "%s(a: %s): %s == %s %s a;" % (fn, SI, SI, val, mk)))
 
+    def g_macro(self):
+        """a macro for a side-effect-free expression over constants behaves like a constant"""
+        nm = self.fresh("M")
+        cn, cv = self.rng.choice(sorted(self.consts.items()))
+        k = self.rng.range(0, 40)
+        self.add(Form("macro", "%s ==> (%s + %d);" % (nm, cn, k)))
+        self.consts[nm] = cv + k
+        return self.forms[-1]
+
+    def g_ifblock(self):
+        if not self.vars:
+            return self.g_var()
+        nm = self.rng.choice(sorted(self.vars))
+        k = self.rng.range(0, 60)
+        a, b = self.rng.range(1, 9), self.rng.range(10, 19)
+        cur = self.vars[nm]
+        self.vars[nm] = cur + (a if cur > k else b)
+        text = "if %s > %d then {\n   %s := %s + %d;\n} else {\n   %s := %s + %d;\n}" % (nm, k, nm, nm, a, nm, nm, b)
+        return self.add(Form("if-block", text))
+
+    def g_include(self):
+        """a definition that arrives through an included file of the sandbox"""
+        fn = "inc%d.as" % (len(self.files) + 1)
+        c, f = self.fresh("ci"), self.fresh("fi")
+        k = self.rng.range(1, 40)
+        self.files[fn] = "%s: %s == %d;\n%s(a: %s): %s == (a + %s) rem %d;\n" % (c, self.d.SI, k, f, self.d.SI, self.d.SI, c, M)
+        self.consts[c] = k
+        self.funs[f] = (1, lambda a, k=k: (a + k) % M)
+        return self.add(Form("include", '#include "%s"' % fn))
+
     def g_loop(self):
         if not self.vars:
             return self.g_var()
@@ -389,7 +420,8 @@ class Gen:
                     self.g_domain(self.pending_dom.pop(0))
                     continue
                 k = r.weighted([("out", 30), ("assign", 12), ("var", 8), ("const", 8), ("fun", 10), ("big", 6),
-                                ("str", 6), ("list", 8), ("loop", 6), ("domain", 3 if self.d.name != "libaldor" else 0)])
+                                ("str", 6), ("list", 8), ("loop", 6), ("domain", 3 if self.d.name != "libaldor" else 0),
+                                ("macro", 4), ("ifblock", 5), ("include", 3 if len(self.files) < 3 else 0)])
                 getattr(self, "g_" + k)()
         # every session ends with an output so the last state is observed
         self.g_out()
